@@ -73,6 +73,37 @@ fn values(sh: Shape, radix: u32) -> BoxedStrategy<Pat> {
         };
         wrap(zq.mul(&scale).add(&zr).mod_2k(w))
     });
+    // NUMERAL-STRUCTURED values: the numeral in this radix is made of runs of one digit and of a block
+    // repeated many times (repdigits, periodic numerals), so that consecutive chunks of the conversion
+    // are equal without being zero or extreme
+    let numeral_structured = (proptest::collection::vec((0u32..radix, 1usize..=(3 * p_full as usize).max(2), proptest::collection::vec(0u32..radix, 1..=(p_full as usize + 1)), 0u8..4), 1..6), any::<bool>()).prop_map(move |(parts, lead)| {
+        let cap = (w as f64 / (radix as f64).log2()) as usize + 1;
+        let mut digits: Vec<u8> = Vec::new();
+        if lead {
+            digits.push(1);
+        }
+        for (d, len, block, mode) in parts {
+            match mode {
+                0 | 1 => digits.extend(std::iter::repeat(d as u8).take(len * 4)),
+                2 => {
+                    for _ in 0..len {
+                        digits.extend(block.iter().map(|&x| x as u8));
+                    }
+                }
+                _ => digits.extend(block.iter().map(|&x| x as u8)),
+            }
+            if digits.len() >= cap {
+                break;
+            }
+        }
+        let mut z = Z::from_radix_be(&digits, radix);
+        // too long for the type: drop most significant digits
+        while z.bit_len() > w && !digits.is_empty() {
+            digits.remove(0);
+            z = Z::from_radix_be(&digits, radix);
+        }
+        wrap(z)
+    });
     // binary-aligned small multiples of the conversion bases r^p (the divisor of the repeated short division)
     let bases: Vec<u64> = [p_full, p_half, 1, 2].iter().filter_map(|&p| r.pow_capped(p, 64).and_then(|b| b.to_u64())).filter(|&b| db == 64 || b < (1u64 << db)).collect();
     let bases = if bases.is_empty() { vec![1u64] } else { bases };
@@ -80,6 +111,7 @@ fn values(sh: Shape, radix: u32) -> BoxedStrategy<Pat> {
     prop_oneof![
         4 => gen::pattern(sh),
         3 => aligned,
+        3 => numeral_structured,
         4 => chunked,
         4 => quotient_structured,
         3 => powers,
@@ -262,7 +294,7 @@ fn main() {
     runner::main(
         Property {
             id: "C11",
-            rule: "Every radix 2..=256 in every run (radices <= 36 and powers of two weighted x3). Values: structured W-bit patterns; sums c_i*(r^p)^i with many chunks c_i in {0, 1, r^p-1} for the chunk sizes p implied by the digit size and half the digit size (interior zero chunks); r^j and r^j+-1; quotient-structured values q*(r^p)^m + rem with q a structured binary pattern (zero / extreme binary digits in the running quotient); single-digit values; boundary values (MAX, MIN, -1, 0); values built from whole-digit or half-digit binary chunks that are small multiples of the conversion base r^p or miss it by one (the partial dividend of a short-division step equals the divisor). Oracle: the canonical numeral from the reference integer by repeated single-limb division (lowercase, no leading zeros, '0' for zero, '-' + magnitude for negatives; the two's-complement pattern for to_radix_be/le of signed types), plus the round trips through from_str_radix / from_radix_be / from_radix_le; out-of-range radices {0, 1, 37, 257, 258, 65536, u32::MAX} panic and in-range ones never do. A deterministic NUMERAL-LENGTH SWEEP per configuration adds r^k - 1, r^k, r^k + 1 (both signs for signed types) for every exponent k with r^k representable and the radices {10, 3, 6, 7, 12, 36, 100, 255}, and 2^b - 1, 2^(b-1) for every bit length b in decimal (base 3 as well up to 1088 bits) - all exponents and bit lengths on types up to 1088 bits, a spread selection on wider types (quick tier: about 120 decimal exponents, 16 exponents of the other radices, every 41st bit length; thorough tier: four times as many); these are the inputs on which a length estimate derived from the bit length is off by one. NON-TRIVIAL: the output has >= 3 digits. distinct = distinct (profile, job, inputs) by 64-bit hash. 8-bit configuration: all values x all radices.",
+            rule: "Every radix 2..=256 in every run (radices <= 36 and powers of two weighted x3). Values: structured W-bit patterns; sums c_i*(r^p)^i with many chunks c_i in {0, 1, r^p-1} for the chunk sizes p implied by the digit size and half the digit size (interior zero chunks); r^j and r^j+-1; quotient-structured values q*(r^p)^m + rem with q a structured binary pattern (zero / extreme binary digits in the running quotient); single-digit values; boundary values (MAX, MIN, -1, 0); numeral-structured values (the numeral in the radix under test is made of runs of one digit and of a block repeated many times); values built from whole-digit or half-digit binary chunks that are small multiples of the conversion base r^p or miss it by one (the partial dividend of a short-division step equals the divisor). Oracle: the canonical numeral from the reference integer by repeated single-limb division (lowercase, no leading zeros, '0' for zero, '-' + magnitude for negatives; the two's-complement pattern for to_radix_be/le of signed types), plus the round trips through from_str_radix / from_radix_be / from_radix_le; out-of-range radices {0, 1, 37, 257, 258, 65536, u32::MAX} panic and in-range ones never do. A deterministic NUMERAL-LENGTH SWEEP per configuration adds r^k - 1, r^k, r^k + 1 (both signs for signed types) for every exponent k with r^k representable and the radices {10, 3, 6, 7, 12, 36, 100, 255}, and 2^b - 1, 2^(b-1) for every bit length b in decimal (base 3 as well up to 1088 bits) - all exponents and bit lengths on types up to 1088 bits, a spread selection on wider types (quick tier: about 120 decimal exponents, 16 exponents of the other radices, every 41st bit length; thorough tier: four times as many); these are the inputs on which a length estimate derived from the bit length is off by one. NON-TRIVIAL: the output has >= 3 digits. distinct = distinct (profile, job, inputs) by 64-bit hash. 8-bit configuration: all values x all radices.",
             assumptions: &[
                 "digits()/from_digits()/to_bits()/from_bits() are the trusted observation channel",
                 "reference numerals by repeated division of the reference integer by the radix (self-tested against the primitives' formatting)",
